@@ -7,7 +7,7 @@ COQ = os.path.join(os.path.dirname(os.path.dirname(os.path.abspath(__file__))), 
 
 def statement(path, name):
     t = open(os.path.join(COQ, path)).read()
-    m = re.search(r'^(?:Lemma|Theorem|Example|Corollary)\s+' + re.escape(name) + r'\s*:(.*?)\.\s*\nProof\.', t, re.S | re.M)
+    m = re.search(r'^(?:Lemma|Theorem|Example|Corollary)\s+' + re.escape(name) + r'\s*:(.*?)\.\s*Proof\.', t, re.S | re.M)
     if not m:
         raise SystemExit(f'{path}: lemma {name} not found in binder-less form')
     return m.group(1).strip()
@@ -15,8 +15,11 @@ def statement(path, name):
 
 def write(prop, title, imports, defs, items, extra=''):
     out = [f'(* {prop} - {title}\n   Only statements, each closed by [exact]; proofs are in the files imported below. *)', imports, defs]
-    for path, name, new, comment in items:
+    for it in items:
+        path, name, new, comment = it[:4]
         st = statement(path, name)
+        for a, b in (it[4] if len(it) > 4 else {}).items():
+            st = st.replace(a, b)
         if comment:
             out.append(f'(* {comment} *)')
         out.append(f'Theorem {new} :\n  {st}.\nProof. exact {name}. Qed.\nPrint Assumptions {new}.\n')
